@@ -246,7 +246,7 @@ theorem intRule_sat {mn mx : Option Num} {v0 v : Val} (h : intRule mn mx v0 = .o
 theorem floatRule_sat {E : Env} {mn mx : Option Num} {v0 v : Val} (h : floatRule E mn mx v0 = .ok v) :
     ∃ x, v = .flt x ∧ NotBelow (ofFlt x) mn ∧ NotAbove (ofFlt x) mx := by
   cases v0 <;> simp only [floatRule] at h <;> try (cases h; done)
-  · split at h <;> cases h
+  · (repeat' split at h) <;> cases h
     exact ⟨_, rfl, (checkBounds_iff _ _ _).1 ‹_›⟩
   · split at h <;> cases h
     exact ⟨_, rfl, (checkBounds_iff _ _ _).1 ‹_›⟩
